@@ -383,6 +383,9 @@ int main(void)
 	if (pre_ixa + n == 5 && !br_ssl_engine_closed(&cc) && hs_calls == 0) {
 		unsigned rlen = ((unsigned)IBUF[3] << 8) | IBUF[4];
 		CHECK(pre_incrypt ? rlen <= ILEN - 5 : rlen <= 16384, "over-long record length refused at the header, before any body byte is accepted");
+		/* C02: once protection is active EVERY record - also an empty one - must have a length the record layer
+		   admits (room for MAC / tag); otherwise a bare header would be accepted without any authentication */
+		CHECK(!pre_incrypt || (rlen >= stub_in.cl_min && rlen <= stub_in.cl_max), "with encryption active a record header is accepted only if the record layer admits its length");
 		WITNESS_POINT("header completed");
 	}
 	/* C19: data arriving after the local close request is discarded, never delivered */
